@@ -65,7 +65,7 @@ def run(ctx, rep):
             sl = flow.backward_slice(NS, op_place(t["args"][1])) if len(t["args"]) > 1 and op_place(t["args"][1]) else {"calls": set(), "call_sites": set()}
             if any(NAME.search(c) for c in sl["calls"]):
                 sinks.append((bb, t, sl))
-    rep.floor("C14.a", "path-building sites fed by Node::name()", len(sinks), 2)
+    rep.floor("C14.a", "path-building sites fed by Node::name()", len(sinks), 1)
     validators = [b for b in prog.by_crate["rustic_core"] if b.kind in ("Fn", "AssocFn") and is_validator(prog, b)]
     vcalls = []
     for bb, t in NS.calls():
@@ -110,7 +110,7 @@ def run(ctx, rep):
     CP = prog.find1(r"^rustic_core::commands::restore::collect_and_prepare$")
     fam = [CP] + prog.closures_of(CP)
     rm = [(f, bb, t) for f in fam for bb, t in f.calls() if "callee" in t and re.search(r"local_destination::LocalDestination::remove_(dir|file)$", callee(t))]
-    rep.floor("C14.b", "destination removal sites", len(rm), 2)
+    rep.floor("C14.b", "destination removal sites", len(rm), 1)
 
     for (f, bb, t) in rm:
         r1 = pathsens.reachable_under(f, force_flag("delete", False), eval_expr=flag_eval("delete", False))
